@@ -6,6 +6,8 @@ import ast
 import re
 
 from ..cfg import CFG
+from ..normal import inline_temps
+from ..pattern import find, guards_of, pmatch
 from ..core import (AnalysisError, body_nodes, call_name, depends_on, dotted, is_self_attr,
                     key_text, kwarg, local_defs, names_in, params, parent, stmts_of, unparse)
 
@@ -192,6 +194,24 @@ def _inside_hc_expr(arg, nm):
     return False
 
 
+def _hc_added_under_flag(func, flag_text):
+    """some statement adding a Hermitian conjugate (`X + X.conj()...`, `iconj`) executes exactly
+    when the explicit_plus_hc flag holds (guards read off the block structure of the normal form,
+    so `if flag:` blocks, `if not flag: return` guard clauses and named flags all count)"""
+    nf = inline_temps(func)
+    for st in ast.walk(nf):
+        if not isinstance(st, ast.stmt) or isinstance(st, (ast.If, ast.For, ast.While, ast.Try,
+                                                           ast.With, ast.FunctionDef)):
+            continue
+        u = unparse(st)
+        if '.conj()' not in u and 'iconj' not in u:
+            continue
+        for t, pol, _ in guards_of(nf, st):
+            if pol and (t == flag_text or (flag_text is None and t.endswith('explicit_plus_hc'))):
+                return True
+    return False
+
+
 def check_hcflag_model(prog, rep):
     m = prog.module(MODEL)
     table = [
@@ -209,9 +229,7 @@ def check_hcflag_model(prog, rep):
                           f.lineno)
             continue
         if how == 'conj':
-            ok = any(isinstance(s, ast.If) and 'explicit_plus_hc' in unparse(s.test) and (
-                '.conj()' in unparse(s) or 'iconj' in unparse(s)) for s in ast.walk(f))
-            if not ok:
+            if not _hc_added_under_flag(f, 'self.explicit_plus_hc'):
                 rep.violation('HCFLAG-model', m, q, 'no-hc-added',
                               'with explicit_plus_hc the bond Hamiltonians must get their '
                               'Hermitian conjugate added', f.lineno)
@@ -227,9 +245,7 @@ def check_hcflag_model(prog, rep):
     rep.unit(ed)
     f = ed.func('ExactDiag.build_full_H_from_mpo')
     rep.instance('HCFLAG-model', {'function': 'ExactDiag.build_full_H_from_mpo'})
-    ok = any(isinstance(s, ast.If) and 'explicit_plus_hc' in unparse(s.test) and 'conj' in unparse(s)
-             for s in ast.walk(f))
-    if not ok:
+    if not _hc_added_under_flag(f, None):
         rep.violation('HCFLAG-model', ed, 'ExactDiag.build_full_H_from_mpo', 'no-hc-added',
                       'the dense matrix of an MPO with explicit_plus_hc needs + h.c.', f.lineno)
     # conversions between MPO and bond form refuse / handle the flag
